@@ -1,4 +1,4 @@
-"""Shared driver pieces of C07 / C08: which variants of the code the tree under test follows (witness scenarios)."""
+"""Shared driver pieces of C07 / C08."""
 import json
 import vlib, phaselib as pl, deplib as dl, depgen
 
@@ -12,34 +12,9 @@ ID_C08S = ("C08 object present in the outgoing and the incoming revision deleted
            "(incoming revision keeps it in an ObjectSlice)")
 
 
-def witnesses():
-    ctx = dl.Ctx(dl.ALPHABET)
-    old = dl.mk_dset(ctx, ctx.h(2), 101, 2, 1, hash=ctx.h(2), conds=[depgen.AV_T(1), depgen.SUCC(1)])
-    w07 = dl.scenario(ctx, dl.mk_dep(ctx, 1), [old], [{"op": "dep"}, {"op": "dep", "stale": True}])
-    r1 = dl.mk_dset(ctx, ctx.h(1), 101, 1, 1, hash=ctx.h(1), conds=[depgen.AV_F(1)], ctrlof=[{"gk": 1, "ns": 1, "name": 1}])
-    r2 = dl.mk_dset(ctx, ctx.h(5), 102, 5, 2, hash=ctx.h(5), prev=[ctx.h(1)], conds=[depgen.AV_F(1)])
-    w08 = dl.scenario(ctx, dl.mk_dep(ctx, 5), [r1, r2], [{"op": "dep"}])
-    return w07, w08
-
-
-def detect_variants(run):
-    """Sets deplib.REV0OK / deplib.SLICEAWARE from the behaviour of the tree under test. Returns False on harness trouble."""
-    w07, w08 = witnesses()
-    outs = vlib.run_harness("deployment", [w07, w08])
-    if any("obs" not in o for o in outs):
-        run.violation("corr:%s/witness harness error" % run.pid, {"out": outs}, False)
-        return False
-    # F-C07 witness: after the stale pass the collision counter is still unset iff the slow-cache test accepts revision 0
-    dl.REV0OK = outs[0]["obs"]["steps"][1]["dep"]["cc"] is None
-    # second half of F-C14: the unavailable revision 1 is asked to pause iff the getter does not see slice 7
-    dl.SLICEAWARE = not any(e["kind"] == "update" for e in outs[1]["obs"]["steps"][0]["events"])
-    run.notes.append("new-revision reconciler follows the %s slow-cache test (witness: create, stale List, Get sees revision 0 -> %s)" % (
-        "repaired" if dl.REV0OK else "current", "no collision" if dl.REV0OK else "collisionCount bumped"))
-    run.notes.append("archive reconciler %s (witness: unavailable revision 1 controls ConfigMap n1, revision 2 keeps it in ObjectSlice sl7 -> %s)" % (
-        "reads the ObjectSlices of the next revision" if dl.SLICEAWARE else "looks at inline objects only",
-        "revision 1 left alone" if dl.SLICEAWARE else "revision 1 paused for archival"))
-    run.cov["implementation_model"] = "rev0ok=%s sliceaware=%s" % (dl.REV0OK, dl.SLICEAWARE)
-    return True
+def note_shapes(run):
+    run.cov["model"] = ("the code as it is: slow-cache test accepts revision 0 (0384cff), archive reconciler reads ObjectSlices (f07b836); "
+                        "the shapes before these commits are kept as _v0 definitions with _v0_refuted theorems only")
 
 
 def has_stale(sc):
